@@ -5,12 +5,14 @@ import XmppModel.Model.Muc
     C18 muc <addrs> <trace>      addrs: occupant address id of channel 0,1,… (`,`-joined)
       J<c> Join starts (registered, request queued); J<c>@<a> the same with the Nick option (address a)
       s<c> Join enters its select   R<c>re Join refused at once (address in use by another channel)
-      A<a> / U<a> available / unavailable muc#user presence from address a processed
+      A<a> / U<a> available / unavailable muc#user presence from address a processed; optional payload
+        suffix `:<aff><role><codes><flags>` (harness/c18/payload.go), default member / participant / 110
       Ej<c> error reply to c's join presence taken   Xj<c> join context done and taken
       R<c>ok | R<c>se | R<c>ce   Join returned nil / the stanza error / the context error
       L<c> Leave starts   l<c> Leave enters its select   El<c> / Xl<c> error reply / cancel
       D<c>ok | D<c>se | D<c>ce   Leave returned
       I mediated invitation   N unrelated stanza   ?<bits> Joined() of every channel
+      =<a0>.<a1>… Me() of every channel (emitted when it changed)
     answer: `joined=<bits> upres=<n> inv=<n>` or `bad@n:tok`
 -/
 namespace XmppModel.Driver.C18
@@ -27,6 +29,36 @@ def parseChild (c : Char) : Option Child :=
   else if c = 'u' then some .unrelated else if c = 'm' ∨ c = 'M' then some .mucInvite
   else if c = 'd' then some .mucOther else none
 
+def affOfLetter (c : Char) : Option (Option String) :=
+  if c = '-' then some none else if c = 'n' then some (some "none") else if c = 'o' then some (some "owner")
+  else if c = 'a' then some (some "admin") else if c = 'm' then some (some "member")
+  else if c = 'c' then some (some "outcast") else none
+
+def roleOfLetter (c : Char) : Option (Option String) :=
+  if c = '-' then some none else if c = 'n' then some (some "none") else if c = 'm' then some (some "moderator")
+  else if c = 'p' then some (some "participant") else if c = 'v' then some (some "visitor") else none
+
+/-- the payload suffix of a presence token: `<aff><role><codes><flags>`; the presence is one the
+model's `avail` / `unavail` stand for iff its item decodes (status codes, extra children and
+sibling payloads do not matter) -/
+def payloadOk (p : List Char) : Bool :=
+  match p with
+  | a :: r :: rest =>
+    match affOfLetter a, roleOfLetter r with
+    | some aff, some role =>
+      let flags := rest.dropWhile fun c => c.isDigit || c = '+'
+      flags.all (fun c => c = 'r' || c = 'x' || c = 'd' || c = 'e' || c = 's') &&
+        (flags.contains 'x' || (decodeItem ⟨aff, role⟩).isSome)
+    | _, _ => false
+  | _ => false
+
+/-- `<a>` or `<a>:<payload>` -/
+def presAddr (r : List Char) : Option Nat :=
+  match (String.ofList r).splitOn ":" with
+  | [as] => as.toNat?
+  | [as, p] => if payloadOk p.toList then as.toNat? else none
+  | _ => none
+
 def applyTok (n : Nat) (s : St) (tok : String) : Option St :=
   let idx (r : List Char) : Option Nat := do let c ← numOf r; if c < n then some c else none
   match tok.toList with
@@ -37,8 +69,8 @@ def applyTok (n : Nat) (s : St) (tok : String) : Option St :=
     | [cs, as] => do let c ← idx cs.toList; let a ← as.toNat?; step s (.joinStart c a)
     | _ => none
   | 's' :: r => do let _ ← idx r; some s   -- entering the select is not a model step
-  | 'A' :: r => do let a ← numOf r; step s (.avail a)
-  | 'U' :: r => do let a ← numOf r; step s (.unavail a)
+  | 'A' :: r => do let a ← presAddr r; step s (.avail a)
+  | 'U' :: r => do let a ← presAddr r; step s (.unavail a)
   | 'E' :: 'j' :: r => do let c ← idx r; step s (.joinError c)
   | 'X' :: 'j' :: r => do let c ← idx r; step s (.joinCancel c)
   | 'E' :: 'l' :: r => do let c ← idx r; chk (s.lpc c == .waiting) s
@@ -80,6 +112,10 @@ def applyTok (n : Nat) (s : St) (tok : String) : Option St :=
   | ['N'] => step s .unrelated
   | 'Z' :: _ => step s .unrelated   -- a late error reply to a join / leave that has already returned
   | '?' :: r => chk (String.ofList r == bits n s) s
+  | '=' :: r => do
+    -- Me() of every channel: the occupant address it holds
+    let l ← mapM? String.toNat? ((String.ofList r).splitOn ".")
+    chk (l == (List.range n).map s.cur) s
   | _ => none
 
 def replay (n : Nat) : List String → Nat → St → Except String St
